@@ -194,6 +194,49 @@ func assertDischarged(p *Program, ta *ssa.TypeAssert) (bool, string) {
 		}
 	}
 	if field == "" {
+		// an element of a list fed from a channel: every value sent on the feeding channels implements the asserted interface
+		if it, ok := ta.AssertedType.Underlying().(*types.Interface); ok {
+			src := ta.X.Type()
+			n, okAll := 0, true
+			for _, fn := range p.LibFuncs() {
+				eachInstr(fn, func(in ssa.Instruction) {
+					mi, ok := in.(*ssa.MakeInterface)
+					if !ok || !types.Identical(mi.Type(), src) {
+						return
+					}
+					// only conversions that are sent on a channel named like the response queue matter
+					toResp := false
+					for _, r := range *mi.Referrers() {
+						if s, ok := r.(*ssa.Send); ok {
+							if _, path := accessPath(s.Chan); path == "responses" {
+								toResp = true
+							}
+						}
+					}
+					if !toResp {
+						return
+					}
+					n++
+					if !types.Implements(mi.X.Type(), it) {
+						okAll = false
+					}
+				})
+			}
+			// the list is filled only from that channel
+			fed := false
+			for _, l := range leavesOfIface(ta.X) {
+				if u, ok := l.(*ssa.UnOp); ok {
+					if ia, ok := u.X.(*ssa.IndexAddr); ok {
+						if _, path := accessPath(ia.X); path == "outgoing" {
+							fed = true
+						}
+					}
+				}
+			}
+			if fed && n > 0 && okAll {
+				return true, "every value queued as a response implements " + ta.AssertedType.String()
+			}
+		}
 		return false, "the asserted value is not a packet field"
 	}
 	nt := namedOf(base)
